@@ -25,11 +25,12 @@ PROP = "C11"
 def generate(streams, tier):
     r = streams.s("kind")
     big = tier == "thorough"
-    world = W.gen_bn(streams, max_n=5 if big else 4, min_n=2, max_card=3, max_parents=2, max_joint=729, force_str_labels=True, allow_card1=False,
+    wide = r.random() < 0.35
+    world = W.gen_bn(streams, max_n=(6 if wide else 5) if big else (6 if wide else 4), min_n=4 if wide else 2, max_card=3, max_parents=3 if wide else 2, max_joint=729, force_str_labels=True, allow_card1=False,
                      state_modes=[("str", 3), ("int_sorted", 2)])
     n = world["n"]
     rd = streams.s("data")
-    rows = W.gen_rows(rd, world, rd.choice([8, 15, 30, 60, 120]))
+    rows = W.gen_rows(rd, world, rd.choice([8, 15, 30, 60, 120] + ([200, 300] if wide else [])), sharpen=rd.random() < 0.4)
     rw = streams.s("workload")
     ops = []
     for _ in range(rw.randint(1, 3)):
@@ -57,6 +58,11 @@ def generate(streams, tier):
                 calls.append({"type": rw.choice(["chow-liu", "chow-liu", "tan"]), "weights": rw.choice(["mutual_info", "mutual_info", "normalized_mutual_info", "callable_sq"]),
                               "class_node": rw.randrange(n)})
             ops.append({"op": "tree", "root": rw.randrange(n), "n_jobs": rw.choice([1, 2, -1]), "jobseed": rw.randrange(2**31), "calls": calls})
+    if ops and all(o["op"] == "tree" for o in ops) and rw.random() < 0.5:
+        # integer column labels (a frame built from an array has 0..n-1): only for the tree searches, the structure scores do not
+        # support them (known finding of C16)
+        world["labels"] = shuffled(rw, range(n)) if rw.random() < 0.7 else rw.sample([0, 1, 2, 3, 5, 7, 10, 20], n)
+        world["flags"]["label_mode"] = "int"
     return {"world": world, "rows": rows, "ess": rw.choice([1, 5, 10]), "ops": ops}
 
 
